@@ -7,7 +7,7 @@ from vk.specs import chain as S
 from vk.specs import universe as U
 from vk.specs import dyn as Dn
 from vk.symx import shims as SH
-from vk.symx.harness import decide
+from vk.symx.harness import decide, decide_true, native_pair
 from vk.symx.poly import Poly, VarFactory, lift_array
 
 
@@ -50,6 +50,11 @@ def prove(run):
             a = SH.symbolic_state(at, vf)
             phi = SH.symbolic_state(b0, vf)
             case = {"model": name, "nsites": n, "sector": q, "gauge": gauge, "bond_dims": list(at.bond_dims), "ops": [repr(o) for o in ops]}
+            atc, phic = S.complexify(at, rng), S.complexify(b0, rng)
+            vn, wn = S.dense(atc), S.dense(phic)
+            dn_ = [S.dense(m) for m in mpos]
+            how = ("props.C07_sym: model/ops from Dn.hamiltonian + props.C07.product_ops with rng [seed, n, 717, name]; state = U.make_state(...) in the gauge, "
+                   "entries multiplied by random phases (vk.specs.chain.complexify); the identity is evaluated on the real float code")
             tag = f"{name}{n}:{gauge}"
             with SH.symbolic_mode():
                 v, w = S.dense(a), S.dense(phi)
@@ -57,9 +62,11 @@ def prove(run):
                 for k, (m, d) in enumerate(zip(mpos, dens)):
                     e = a.expectation(m)
                     singles.append(e)
-                    decide(run, f"post:Mps.expectation:sesquilinear_form[{k}]@{tag}", "Mps.expectation", e, conv(vdot(v, d.dot(v))), case)
+                    decide(run, f"post:Mps.expectation:sesquilinear_form[{k}]@{tag}", "Mps.expectation", e, conv(vdot(v, d.dot(v))), case,
+                           numeric_replay=native_pair((lambda k_: lambda: (atc.expectation(mpos[k_]), np.vdot(vn, dn_[k_] @ vn)))(k), how))
                     t = a.expectation(m, self_conj=phi.conj())
-                    decide(run, f"post:Mps.expectation:transition_amplitude[{k}]@{tag}", "Mps.expectation", t, conv(vdot(w, d.dot(v))), case)
+                    decide(run, f"post:Mps.expectation:transition_amplitude[{k}]@{tag}", "Mps.expectation", t, conv(vdot(w, d.dot(v))), case,
+                           numeric_replay=native_pair((lambda k_: lambda: (atc.expectation(mpos[k_], self_conj=phic.conj()), np.vdot(wn, dn_[k_] @ vn)))(k), how))
                 # batched fast path: all ordered pairs + structured longer lists (shared prefixes / suffixes / repeats)
                 lists = [list(p) for p in itertools.product(range(len(mpos)), repeat=2)]
                 lists += [[0, 1, 0], [2, 2, 2], list(range(len(mpos))), list(range(len(mpos)))[::-1], [1, 3, 1, 4], [5, 0, 5, 0]]
@@ -67,12 +74,12 @@ def prove(run):
                     lists = lists[::3] + lists[-6:]
                 for lst in lists:
                     nlists += 1
+                    nat = native_pair((lambda l_: lambda: (atc.expectations([mpos[i] for i in l_], opt=True), [np.vdot(vn, dn_[i] @ vn) for i in l_]))(list(lst)), how)
                     try:
                         fast = a.expectations([mpos[i] for i in lst], opt=True)
                     except Exception as e:     # the code under test raised on symbolic tensors: a violated totality clause, not a checker error
-                        from vk.symx.harness import decide_true
                         decide_true(run, f"post:Mps.expectations:total{lst}@{tag}", "Mps.expectations", False,
-                                    f"expectations(list, opt=True) raised {type(e).__name__}: {e}", dict(case, list=lst), fields={"list": lst})
+                                    f"expectations(list, opt=True) raised {type(e).__name__}: {e}", dict(case, list=lst), fields={"list": lst}, numeric_replay=nat)
                         continue
                     slow = np.array([Poly.coerce(singles[i]) for i in lst], dtype=object)
                     # batch convention: real parts iff ALL imaginary parts vanish
@@ -80,7 +87,7 @@ def prove(run):
                     allreal = all(not f.imag for f in full)
                     ref = np.array([f.real if allreal else f for f in full], dtype=object)
                     decide(run, f"post:Mps.expectations:fast_path_is_dense_form{lst}@{tag}", "Mps.expectations", np.asarray(fast, dtype=object), ref, case,
-                           fields={"list": lst})
+                           fields={"list": lst}, numeric_replay=nat)
                 lst = [0, 2, 0, 1]
                 try:
                     fast = a.expectations([mpos[i] for i in lst], self_conj=phi.conj(), opt=True)
@@ -89,7 +96,6 @@ def prove(run):
                     decide(run, f"post:Mps.expectations:transition_amplitudes{lst}@{tag}", "Mps.expectations", np.asarray(fast, dtype=object),
                            np.array([f.real if allreal else f for f in full], dtype=object), case)
                 except Exception as e:
-                    from vk.symx.harness import decide_true
                     decide_true(run, f"post:Mps.expectations:total{lst}@{tag}", "Mps.expectations", False,
                                 f"expectations(list, self_conj, opt=True) raised {type(e).__name__}: {e}", dict(case, list=lst))
     run.extra.setdefault("symx", {})["C07"] = {"operator_lists_decided": nlists, "shims": SH.SHIMS}
